@@ -51,6 +51,27 @@ def gen_adapter_seq(rng, lo=5, hi=16, wild=0.15):
     return s
 
 
+def _rate_edges():
+    """(error-rate string, adapter length) pairs whose product, as computed in floating point,
+    lies within rounding noise of an integer without being one: int(rate * L) then differs from
+    the 'obvious' value (49 * (1/49) is 0.9999999999999999)."""
+    out = []
+    for L in range(12, 111):
+        for k in range(1, 71):
+            rs = f"{k / 100:g}"
+            p = float(rs) * L
+            if p != round(p) and abs(p - round(p)) < 1e-9:
+                out.append((rs, L))
+        for n in range(1, 11):
+            p = (n / L) * L  # -e N (N >= 1) means N errors: cutadapt uses the rate N / L
+            if p != round(p) and abs(p - round(p)) < 1e-9:
+                out.append((str(n), L))
+    return out
+
+
+RATE_EDGES = _rate_edges()
+
+
 def gen_adapter(rng, end, name=None, allow_linked=True, allow_params=True, simple=False):
     """
     end: 'a' | 'g' | 'b' (lower case = R1 flag letter; caller upper-cases for R2).
@@ -77,6 +98,11 @@ def gen_adapter(rng, end, name=None, allow_linked=True, allow_params=True, simpl
         params = ""
     else:
         s = gen_adapter_seq(rng, wild=0.0 if simple else 0.15)
+        edge = None
+        if allow_params and not simple and rng.random() < 0.03:
+            # a long adapter whose length times its error rate sits on a floating-point edge
+            edge = rng.choice(RATE_EDGES)
+            s = rand_seq(rng, edge[1])
         r = rng.random()
         if end == "a":
             if simple or r < 0.6:
@@ -99,7 +125,9 @@ def gen_adapter(rng, end, name=None, allow_linked=True, allow_params=True, simpl
             seqs = [("any", s)]
         params = ""
         if allow_params and not simple:
-            if rng.random() < 0.2:
+            if edge:
+                params += f";e={edge[0]}"
+            elif rng.random() < 0.2:
                 params += f";e={rng.choice(['0', '0.1', '0.2', '0.34', '1', '2'])}"
             if kind not in ("prefix", "suffix") and rng.random() < 0.2:
                 params += f";o={rng.randint(1, 8)}"
@@ -371,6 +399,8 @@ def default_profile():
         p_interleaved_redirect=0.3,
         p_duplicate_adapter=0.03,
         p_many_adapters=0.004,
+        p_tty=0.15,
+        p_emfile=0.08,
         p_same_name=0.0,  # (C15 only) demultiplexing: two different adapters that share a name (one file)
         p_adapter_file=0.12,  # (only when adapters are named) give one group of adapters as file:adapters.fasta
         p_unknown_name=0.0,  # an adapter literally named 'unknown' (legal with --discard-untrimmed/--untrimmed-output)
@@ -774,7 +804,7 @@ def record_sizes(case):
 def gen_knobs(rng, case, P=None):
     from . import policies
 
-    P = P or default_profile()
+    P = dict(default_profile(), **(P or {}))
     s1, s2 = record_sizes(case)
     if case["input"]["layout"] == "interleaved":
         per = [a + b for a, b in zip(s1, s2)]
@@ -793,8 +823,11 @@ def gen_knobs(rng, case, P=None):
         buf = max(floor, total + rng.randint(1, 100))
     if case.get("meta", {}).get("big"):
         buf = max(floor, total // (rng.randint(3, 9) if case["meta"]["big"] == 1 else rng.randint(3, 6)))
+        if case["meta"]["big"] == 2 and rng.random() < 0.4:
+            # everything in one or two chunks: more than 10000 reads (the progress batch size) per chunk
+            buf = max(floor, total // rng.randint(1, 2) + 1000)
     workers = rng.randint(*P["workers"])
-    return {
+    knobs = {
         "workers": workers,
         "buffer_size": buf,
         "capacity": rng.choice([64, 1024, 65536, 65536, None]),
@@ -802,6 +835,17 @@ def gen_knobs(rng, case, P=None):
         "policy": policies.draw_policy(rng, workers),
         "sched_seed": rng.randrange(1 << 60),
     }
+    # the machine the run happens on (drawn from a second stream so that older cases keep
+    # their schedules): process start method, terminal on standard error, which compressed
+    # formats go through an external program, and one open() failing with EMFILE
+    import random as _random
+
+    e = _random.Random(knobs["sched_seed"] ^ 0x5EED)
+    knobs["start_method"] = e.choice(["fork", "spawn", "spawn"])
+    knobs["tty"] = e.random() < P["p_tty"]
+    knobs["piped_exts"] = e.choice([[], [".xz", ".zst"], [".xz", ".zst"], [".gz", ".bz2", ".xz", ".zst"]])
+    knobs["emfile_at"] = e.randint(1, 12) if e.random() < P["p_emfile"] else None
+    return knobs
 
 
 LONG_FORMS = {
